@@ -182,6 +182,18 @@ impl Iterator for StyledScanlines {
     }
 }
 
+/// Verification hook: the real `StyledScanlines::next` for the single row `y`.
+#[cfg(embedded_graphics_verif)]
+pub(in crate::primitives) fn verif_styled_scanline_at(
+    stroke_area: &Ellipse,
+    fill_area: &Ellipse,
+    y: i32,
+) -> Option<StyledScanline> {
+    let mut scanlines = StyledScanlines::new(stroke_area, fill_area);
+    scanlines.scanlines.verif_set_row(y);
+    scanlines.next()
+}
+
 #[cfg(test)]
 mod tests {
     use super::*;
